@@ -4,7 +4,7 @@
    action on the states reachable from its initial state, then for the SM3-HMAC of coq/Hash. *)
 From GmVerif Require Import Base.ListX Base.Bytes Hash.MD Hash.SM3 Hash.SM3Proofs Hash.Hmac Hash.HmacProofs
   Hash.Instances Hash.C03Lemmas Cipher.SM4 Cipher.GF128 Cipher.GCM Cipher.Aead Cipher.AeadProofs Cipher.GCMProofs
-  Cipher.CCMProofs.
+  Cipher.CCMProofs Cipher.AES Cipher.AESProofs.
 Require Import Lia ZifyN ZifyNat ZifyBool.
 Ltac Zify.zify_post_hook ::= Z.div_mod_to_equations.
 Local Open Scope nat_scope.
@@ -459,3 +459,327 @@ Proof.
   - intros x. apply sm4_encrypt_block_ok.
   - intros x [Hl Ho]. unfold sm4D, sm4E. apply sm4_dec_enc; assumption.
 Qed.
+
+(* ===================== encrypt side of the HMAC modes: streaming = whole-message form ===================== *)
+Section CbcEnc.
+  Variable E : list N -> list N.
+  Notation blocks := (cbc_enc_blocks E).
+
+  Lemma cbc_enc_split : forall k1 k2 iv x y, length x = 16 * k1 ->
+    blocks (k1 + k2) iv (x ++ y) =
+    let '(iv1, o1) := blocks k1 iv x in let '(iv2, o2) := blocks k2 iv1 y in (iv2, o1 ++ o2).
+  Proof.
+    induction k1 as [|k1 IH]; intros k2 iv x y Hx.
+    - destruct x; [|cbn in Hx; lia]. cbn [Nat.add cbc_enc_blocks app].
+      destruct (blocks k2 iv y). reflexivity.
+    - cbn [Nat.add cbc_enc_blocks].
+      rewrite firstn_app, skipn_app. replace (16 - length x) with 0 by lia.
+      rewrite firstn_O, skipn_O, app_nil_r.
+      rewrite IH by (rewrite skipn_length; lia).
+      destruct (blocks k1 (E (xor_bytes (firstn 16 x) iv)) (skipn 16 x)) as [iv1 o1].
+      destruct (blocks k2 iv1 y) as [iv2 o2]. rewrite app_assoc. reflexivity.
+  Qed.
+
+  Definition cenc_state (iv0 x : list N) : cbc_ctx :=
+    mkCbc (fst (blocks (length x / 16) iv0 (firstn (length x / 16 * 16) x))) (skipn (length x / 16 * 16) x).
+  Definition cenc_out (iv0 x : list N) : list N :=
+    snd (blocks (length x / 16) iv0 (firstn (length x / 16 * 16) x)).
+
+  Lemma cenc_update_state iv0 a b :
+    fst (cbc_enc_update E (cenc_state iv0 a) b) = cenc_state iv0 (a ++ b) /\
+    cenc_out iv0 (a ++ b) = cenc_out iv0 a ++ snd (cbc_enc_update E (cenc_state iv0 a) b).
+  Proof.
+    set (ka := length a / 16). set (ra := skipn (ka * 16) a).
+    assert (Hdm : length a = ka * 16 + length a mod 16)
+      by (pose proof (Nat.div_mod (length a) 16 ltac:(lia)); subst ka; lia).
+    assert (Hr : length a mod 16 < 16) by (apply Nat.mod_upper_bound; lia).
+    assert (Hra : length ra = length a mod 16) by (unfold ra; rewrite skipn_length; lia).
+    set (k := length (ra ++ b) / 16).
+    assert (Hkk : length (a ++ b) / 16 = ka + k).
+    { unfold k. rewrite !app_length, Hra. rewrite Hdm at 1.
+      rewrite <- Nat.add_assoc, Nat.div_add_l by lia. reflexivity. }
+    assert (Hab : a ++ b = firstn (ka * 16) a ++ (ra ++ b)) by (unfold ra; rewrite app_assoc, firstn_skipn; reflexivity).
+    assert (Hfa : length (firstn (ka * 16) a) = ka * 16) by (apply firstn_length_le; lia).
+    assert (Hfirst : firstn ((ka + k) * 16) (a ++ b) = firstn (ka * 16) a ++ firstn (k * 16) (ra ++ b)).
+    { rewrite Hab. rewrite (firstn_app ((ka + k) * 16)), Hfa.
+      rewrite (firstn_all2 (firstn (ka * 16) a)) by lia.
+      replace ((ka + k) * 16 - ka * 16) with (k * 16) by lia. reflexivity. }
+    assert (Hskip : skipn ((ka + k) * 16) (a ++ b) = skipn (k * 16) (ra ++ b)).
+    { rewrite Hab. rewrite (skipn_app ((ka + k) * 16)), Hfa.
+      rewrite (skipn_all2 (firstn (ka * 16) a)) by lia.
+      replace ((ka + k) * 16 - ka * 16) with (k * 16) by lia. reflexivity. }
+    unfold cbc_enc_update, cenc_state, cenc_out. fold ka. fold ra. cbn [cb_iv cb_buf]. fold k.
+    rewrite Hkk, Hfirst, Hskip. rewrite cbc_enc_split by lia.
+    destruct (blocks ka iv0 (firstn (ka * 16) a)) as [iv1 o1]. cbn [fst snd].
+    destruct (blocks k iv1 (firstn (k * 16) (ra ++ b))) as [iv2 o2]. cbn [fst snd].
+    split; reflexivity.
+  Qed.
+
+  Lemma cenc_finish_total iv0 x :
+    cenc_out iv0 x ++ cbc_enc_finish E (cenc_state iv0 x) = cbc_pad_encrypt E iv0 x.
+  Proof.
+    unfold cbc_enc_finish, cenc_state, cenc_out, cbc_pad_encrypt. cbn [cb_iv cb_buf].
+    set (k := length x / 16). set (r := skipn (k * 16) x).
+    assert (Hdm : length x = k * 16 + length x mod 16)
+      by (pose proof (Nat.div_mod (length x) 16 ltac:(lia)); subst k; lia).
+    assert (Hr : length x mod 16 < 16) by (apply Nat.mod_upper_bound; lia).
+    assert (Hrl : length r = length x mod 16) by (unfold r; rewrite skipn_length; lia).
+    rewrite Hrl.
+    set (pad := repeat (N.of_nat (16 - length x mod 16)) (16 - length x mod 16)).
+    assert (Hx : x ++ pad = firstn (k * 16) x ++ (r ++ pad)) by (unfold r; rewrite app_assoc, firstn_skipn; reflexivity).
+    rewrite Hx, cbc_enc_split by (rewrite firstn_length_le; lia).
+    destruct (blocks k iv0 (firstn (k * 16) x)) as [iv1 o1]. cbn [fst snd].
+    destruct (blocks 1 iv1 (r ++ pad)) as [iv2 o2]. reflexivity.
+  Qed.
+End CbcEnc.
+
+Section HmEnc.
+  Variable M : Type.
+  Variable mac_init : list N -> M.
+  Variable mac_update : M -> list N -> M.
+  Variable mac_finish : M -> list N.
+  Variable E : list N -> list N.
+  Variables (mkey iv aad : list N).
+  Notation m0 := (hm_start M mac_init mac_update mkey aad).
+  Hypothesis mac_nil : mac_update m0 [] = m0.
+  Hypothesis mac_app : forall a b, mac_update (mac_update m0 a) b = mac_update m0 (a ++ b).
+
+  Lemma cbch_enc_run_of chunks : forall x,
+    cbch_enc_run M mac_update E (cenc_state E iv x) (mac_update m0 (cenc_out E iv x)) chunks (cenc_out E iv x)
+    = (cenc_state E iv (x ++ concat chunks), mac_update m0 (cenc_out E iv (x ++ concat chunks)),
+       cenc_out E iv (x ++ concat chunks)).
+  Proof.
+    induction chunks as [|d r IH]; intros x; cbn [cbch_enc_run concat]; [rewrite app_nil_r; reflexivity|].
+    destruct (cenc_update_state E iv x d) as [H1 H2].
+    destruct (cbc_enc_update E (cenc_state E iv x) d) as [c' o]. cbn [fst snd] in *.
+    rewrite H1, mac_app, <- H2, app_assoc. apply IH.
+  Qed.
+
+  Theorem cbch_encrypt_stream chunks :
+    cbch_encrypt M mac_init mac_update mac_finish E mkey iv aad chunks =
+    let c := cbc_pad_encrypt E iv (concat chunks) in c ++ mac_finish (mac_update m0 c).
+  Proof.
+    unfold cbch_encrypt.
+    assert (H0 : cbch_enc_run M mac_update E (mkCbc iv []) m0 chunks [] =
+                 cbch_enc_run M mac_update E (cenc_state E iv []) (mac_update m0 (cenc_out E iv [])) chunks (cenc_out E iv []))
+      by (unfold cenc_state, cenc_out; cbn; rewrite mac_nil; reflexivity).
+    rewrite H0, cbch_enc_run_of. cbn [app]. cbn zeta.
+    rewrite mac_app, app_assoc, cenc_finish_total. reflexivity.
+  Qed.
+
+  (* CTR flavour *)
+  Lemma ctrh_enc_run_of chunks : forall x,
+    ctrh_enc_run M mac_update E (ctr_state ctr128_incr iv x) (mac_update m0 (ctr_out E ctr128_incr iv x)) chunks
+                 (ctr_out E ctr128_incr iv x)
+    = (ctr_state ctr128_incr iv (x ++ concat chunks), mac_update m0 (ctr_out E ctr128_incr iv (x ++ concat chunks)),
+       ctr_out E ctr128_incr iv (x ++ concat chunks)).
+  Proof.
+    induction chunks as [|d r IH]; intros x; cbn [ctrh_enc_run concat]; [rewrite app_nil_r; reflexivity|].
+    change (ctr128_update E) with (ctr_update E ctr128_incr).
+    destruct (ctr_update_state E ctr128_incr iv x d) as [H1 H2].
+    rewrite H1 in *. cbn [snd] in H2.
+    rewrite mac_app, <- H2, app_assoc. apply IH.
+  Qed.
+
+  Theorem ctrh_encrypt_stream chunks :
+    ctrh_encrypt M mac_init mac_update mac_finish E mkey iv aad chunks =
+    let c := ctr128_crypt E iv (concat chunks) in c ++ mac_finish (mac_update m0 c).
+  Proof.
+    unfold ctrh_encrypt.
+    assert (H0 : ctrh_enc_run M mac_update E (mkCtr iv []) m0 chunks [] =
+                 ctrh_enc_run M mac_update E (ctr_state ctr128_incr iv []) (mac_update m0 (ctr_out E ctr128_incr iv []))
+                              chunks (ctr_out E ctr128_incr iv []))
+      by (unfold ctr_state, ctr_out; cbn; rewrite mac_nil; reflexivity).
+    rewrite H0, ctrh_enc_run_of. cbn [app]. cbn zeta.
+    rewrite mac_app, app_assoc.
+    pose proof (ctr_finish_total E ctr128_incr iv (concat chunks)) as HF.
+    unfold ctr32_finish, ctr128_crypt. rewrite HF. reflexivity.
+  Qed.
+End HmEnc.
+
+(* streaming encryption of the two HMAC modes = the whole-message form, every chunking *)
+Theorem sm4_cbc_sm3_hmac_encrypt_stream key iv aad chunks :
+  sm4_cbc_sm3_hmac_encrypt key iv aad chunks = cbc_hmac_spec_encrypt key iv aad (concat chunks).
+Proof.
+  unfold sm4_cbc_sm3_hmac_encrypt, cbc_hmac_spec_encrypt.
+  rewrite (cbch_encrypt_stream _ sm3_hmac_init sm3_hmac_update sm3_hmac_finish _ _ _ _
+             (sm3_hmac_mac_nil _ _) (sm3_hmac_mac_app _ _)).
+  cbn zeta. rewrite sm3_hmac_mac_spec. reflexivity.
+Qed.
+Theorem sm4_ctr_sm3_hmac_encrypt_stream key iv aad chunks :
+  sm4_ctr_sm3_hmac_encrypt key iv aad chunks = ctr_hmac_spec_encrypt key iv aad (concat chunks).
+Proof.
+  unfold sm4_ctr_sm3_hmac_encrypt, ctr_hmac_spec_encrypt.
+  rewrite (ctrh_encrypt_stream _ sm3_hmac_init sm3_hmac_update sm3_hmac_finish _ _ _ _
+             (sm3_hmac_mac_nil _ _) (sm3_hmac_mac_app _ _)).
+  cbn zeta. rewrite sm3_hmac_mac_spec. reflexivity.
+Qed.
+
+(* CTR-HMAC: streaming encryption under one chunking, streaming decryption under any other *)
+Theorem sm4_ctr_hmac_stream_dec_accepts_enc key iv aad chunks1 chunks2 :
+  concat chunks2 = sm4_ctr_sm3_hmac_encrypt key iv aad chunks1 ->
+  sm4_ctr_sm3_hmac_decrypt key iv aad chunks2 = Ok (concat chunks1).
+Proof.
+  intros Hs. rewrite sm4_ctr_sm3_hmac_encrypt_stream in Hs. unfold ctr_hmac_spec_encrypt in Hs.
+  set (p := concat chunks1) in *. set (E := sm4E (firstn 16 key)) in *.
+  set (c := ctr128_crypt E iv p) in *. set (mac := sm3_hmac_spec (skipn 16 key) (aad ++ c)) in *.
+  assert (HL : forall x, length (E x) = 16) by (intros x; apply sm4_encrypt_block_length).
+  assert (Hmac : length mac = 32) by apply sm3_hmac_spec_length.
+  assert (Hc : length c = length p) by (unfold c, ctr128_crypt; apply (ctr_crypt_length E HL [] 0); lia).
+  apply sm4_ctr_sm3_hmac_accept_iff. cbn zeta. rewrite Hs, app_length, Hmac.
+  replace (length c + 32 - 32) with (length c) by lia.
+  rewrite firstn_app, skipn_app, Nat.sub_diag, firstn_all, skipn_all, firstn_O, skipn_O, app_nil_r.
+  split; [lia|]. split; [reflexivity|].
+  fold E. unfold c, ctr128_crypt. rewrite (ctr_crypt_length E HL [] 0) by lia.
+  symmetry. apply (ctr_crypt_invol E HL [] 0). lia.
+Qed.
+
+(* CBC: the streaming decryptor (update over the whole ciphertext, then finish) = the whole-message form *)
+Section CbcDecWhole.
+  Variable D : list N -> list N.
+  Hypothesis D_len : forall x, length (D x) = 16.
+  Notation blocks := (cbc_dec_blocks D).
+
+  Lemma cbc_dec_blocks_length : forall k iv x, length x = 16 * k -> length iv = 16 ->
+    length (snd (blocks k iv x)) = 16 * k.
+  Proof.
+    induction k as [|k IH]; intros iv x Hx Hiv; [reflexivity|].
+    cbn [cbc_dec_blocks].
+    destruct (blocks k (firstn 16 x) (skipn 16 x)) as [iv' r] eqn:Er.
+    cbn [snd]. rewrite app_length, xor_bytes_length, D_len, Hiv.
+    pose proof (IH (firstn 16 x) (skipn 16 x)) as H. rewrite Er in H. cbn [snd] in H.
+    rewrite H; [lia|rewrite skipn_length; lia|rewrite firstn_length; lia].
+  Qed.
+
+  Lemma cbc_dec_blocks_iv_length : forall k iv x, length x = 16 * k -> length iv = 16 ->
+    length (fst (blocks k iv x)) = 16.
+  Proof.
+    induction k as [|k IH]; intros iv x Hx Hiv; [exact Hiv|].
+    cbn [cbc_dec_blocks].
+    pose proof (IH (firstn 16 x) (skipn 16 x)) as H.
+    destruct (blocks k (firstn 16 x) (skipn 16 x)) as [iv' r]. cbn [fst] in *.
+    apply H; [rewrite skipn_length; lia|rewrite firstn_length; lia].
+  Qed.
+
+  Lemma cbc_stream_dec_whole iv ct : length iv = 16 -> length ct mod 16 = 0 -> 16 <= length ct ->
+    match cbc_dec_finish D (cbc_state D iv ct) with
+    | Ok t => Ok (cbc_out D iv ct ++ t)
+    | _ => Err
+    end = cbc_pad_decrypt D true iv ct.
+  Proof.
+    intros Hiv Hm Hge.
+    set (k := cbc_k ct).
+    assert (Hlen : length ct = 16 * (k + 1)).
+    { unfold k, cbc_k. pose proof (Nat.div_mod (length ct) 16 ltac:(lia)).
+      pose proof (Nat.div_mod (length ct - 1) 16 ltac:(lia)).
+      pose proof (Nat.mod_upper_bound (length ct - 1) 16 ltac:(lia)). lia. }
+    unfold cbc_dec_finish, cbc_state, cbc_out, cbc_pad_decrypt. fold k. cbn [cb_buf cb_iv].
+    set (pre := firstn (k * 16) ct). set (buf := skipn (k * 16) ct).
+    assert (Hpre : length pre = 16 * k) by (unfold pre; rewrite firstn_length; lia).
+    assert (Hbuf : length buf = 16) by (unfold buf; rewrite skipn_length; lia).
+    rewrite Hbuf. cbn [Nat.eqb negb].
+    replace (length ct =? 0) with false by (symmetry; apply Nat.eqb_neq; lia).
+    rewrite Hm. cbn [Nat.eqb negb orb].
+    replace (length ct / 16) with (k + 1) by (rewrite Hlen, Nat.mul_comm, Nat.div_mul; lia).
+    assert (Hct : ct = pre ++ buf) by (unfold pre, buf; rewrite firstn_skipn; reflexivity).
+    assert (Hsp : blocks (k + 1) iv ct =
+                  let '(iv1, o1) := blocks k iv pre in let '(iv2, o2) := blocks 1 iv1 buf in (iv2, o1 ++ o2))
+      by (rewrite Hct at 1; apply cbc_split; exact Hpre).
+    rewrite Hsp. clear Hsp.
+    pose proof (cbc_dec_blocks_length k iv pre Hpre Hiv) as Hol.
+    destruct (blocks k iv pre) as [iv' o] eqn:Eb. cbn [fst snd] in *.
+    cbn [cbc_dec_blocks]. rewrite (firstn_all2 buf) by lia. rewrite app_nil_r.
+    set (pl := xor_bytes (D buf) iv').
+    assert (Hiv' : length iv' = 16).
+    { pose proof (cbc_dec_blocks_iv_length k iv pre Hpre Hiv) as H. rewrite Eb in H. exact H. }
+    assert (Hpl : length pl = 16) by (unfold pl; rewrite xor_bytes_length, D_len; lia).
+    assert (Hnth : nth (length ct - 1) (o ++ pl) 0%N = nth 15 pl 0%N).
+    { rewrite app_nth2 by lia. f_equal. lia. }
+    cbn [snd]. rewrite Hnth.
+    destruct ((nth 15 pl 0 <? 1)%N || (16 <? nth 15 pl 0)%N) eqn:Er; [reflexivity|].
+    apply orb_false_iff in Er. destruct Er as [E1 E2]. apply N.ltb_ge in E1. apply N.ltb_ge in E2.
+    assert (Hsk : skipn (length ct - 16) (o ++ pl) = pl).
+    { rewrite skipn_app. replace (length ct - 16) with (length o) by lia.
+      rewrite skipn_all, Nat.sub_diag, skipn_O. reflexivity. }
+    rewrite Hsk. cbn [andb].
+    destruct (pad_bytes_ok pl (nth 15 pl 0%N)); cbn [negb]; [|reflexivity].
+    f_equal. rewrite firstn_app. rewrite (firstn_all2 o) by lia. f_equal. f_equal. lia.
+  Qed.
+End CbcDecWhole.
+
+Theorem sm4_cbc_hmac_stream_dec_accepts_enc key iv aad chunks1 chunks2 :
+  length key = 48 -> blk_ok iv -> bytes_ok (concat chunks1) = true ->
+  concat chunks2 = sm4_cbc_sm3_hmac_encrypt key iv aad chunks1 ->
+  sm4_cbc_sm3_hmac_decrypt key iv aad chunks2 = Ok (concat chunks1).
+Proof.
+  intros Hk Hiv Hp Hs. rewrite sm4_cbc_sm3_hmac_encrypt_stream in Hs.
+  pose proof (sm4_cbc_hmac_spec_dec_accepts_enc key iv aad (concat chunks1) Hk Hiv Hp) as Hrt.
+  rewrite <- Hs in Hrt. unfold cbc_hmac_spec_decrypt in Hrt.
+  set (all := concat chunks2) in *.
+  destruct (length all <? 32) eqn:E32; [discriminate|]. apply Nat.ltb_ge in E32.
+  set (ct := firstn (length all - 32) all) in *.
+  destruct (cbc_pad_decrypt (sm4D (firstn 16 key)) true iv ct) as [p| |] eqn:Epd; try discriminate.
+  destruct (bytes_eqb _ _) eqn:Eb; [|discriminate]. apply bytes_eqb_eq in Eb.
+  inversion Hrt; subst p; clear Hrt.
+  apply sm4_cbc_sm3_hmac_accept_iff. cbn zeta. fold all. fold ct.
+  split; [exact E32|]. split; [exact Eb|].
+  assert (Hct : length ct mod 16 = 0 /\ 16 <= length ct).
+  { unfold cbc_pad_decrypt in Epd.
+    destruct ((length ct =? 0) || negb (length ct mod 16 =? 0)) eqn:Ec; [discriminate|].
+    apply orb_false_iff in Ec. destruct Ec as [Ec1 Ec2]. apply Nat.eqb_neq in Ec1.
+    apply negb_false_iff, Nat.eqb_eq in Ec2. split; [exact Ec2|].
+    pose proof (Nat.div_mod (length ct) 16 ltac:(lia)). lia. }
+  destruct Hct as [Hm Hge].
+  pose proof (cbc_stream_dec_whole (sm4D (firstn 16 key)) (fun x => sm4_decrypt_block_length _ x) iv ct
+                (proj1 Hiv) Hm Hge) as Hw.
+  rewrite Epd in Hw.
+  destruct (cbc_dec_finish (sm4D (firstn 16 key)) (cbc_state (sm4D (firstn 16 key)) iv ct)) as [t| |]; try discriminate.
+  exists t. split; [reflexivity|]. inversion Hw. reflexivity.
+Qed.
+
+(* ===================== AES instances (aes_modes.c): premises discharged by aes_dec_enc ===================== *)
+Section AesInst.
+  Variable key : list N.
+  Hypothesis Hk : length key = 16 \/ length key = 24 \/ length key = 32.
+
+  Theorem aes_gcm_dec_accepts_enc iv aad taglen p c t :
+    aes_gcm_encrypt key iv aad p taglen = Ok (c, t) -> aes_gcm_decrypt key iv aad c t = Ok p.
+  Proof. unfold aes_gcm_encrypt, aes_gcm_decrypt, aesE. apply gcm_dec_accepts_enc. intros x. apply aesE_len, Hk. Qed.
+
+  Theorem aes_gcm_nonce_change_rejected iv iv' aad c tag p :
+    length tag = 16 -> length iv = 12 -> length iv' = 12 -> iv <> iv' ->
+    bytes_ok iv = true -> bytes_ok iv' = true ->
+    aes_gcm_decrypt key iv aad c tag = Ok p ->
+    forall p', aes_gcm_decrypt key iv' aad c tag <> Ok p'.
+  Proof.
+    intros Ht Hi Hi' Hne Ho Ho' Hok. unfold aes_gcm_decrypt, aesE in *.
+    apply (gcm_nonce_change_rejected_partial (aes_encrypt_block16 key) (fun x => aesE_len key Hk x)
+             false iv iv' aad c tag p (fun x x' => aesE_inj key Hk x x') Ht Hi Hi' Hne Ho Ho' Hok).
+  Qed.
+
+  (* aes_cbc_padding_decrypt (lax rule: only the last byte is inspected) inverts aes_cbc_padding_encrypt *)
+  Lemma cbc_pad_strict_lax D iv c p : cbc_pad_decrypt D true iv c = Ok p -> cbc_pad_decrypt D false iv c = Ok p.
+  Proof.
+    unfold cbc_pad_decrypt. destruct (_ || _); [discriminate|]. destruct (_ || _); [discriminate|].
+    cbn [andb]. destruct (negb _); [discriminate|]. auto.
+  Qed.
+  Theorem aes_cbc_pad_dec_enc iv p : blk_ok iv -> bytes_ok p = true ->
+    cbc_pad_decrypt (aes_decrypt_block key) false iv (cbc_pad_encrypt (aes_encrypt_block16 key) iv p) = Ok p.
+  Proof.
+    intros Hiv Hp. apply cbc_pad_strict_lax.
+    apply (cbc_pad_dec_enc (aes_encrypt_block16 key) (aes_decrypt_block key)); try assumption.
+    - intros x. apply aesE_len, Hk.
+    - intros x. apply aesE_ok, Hk.
+    - intros x Hx. apply wf_blk_ok in Hx. unfold aes_encrypt_block16. rewrite norm16_id by exact Hx.
+      destruct Hx as [Hl Hb]. apply aes_dec_enc; assumption.
+  Qed.
+
+  (* aes_ctr_encrypt is an involution (decryption = the same call) *)
+  Theorem aes_ctr_invol ctr d :
+    ctr128_crypt (aes_encrypt_block16 key) ctr (ctr128_crypt (aes_encrypt_block16 key) ctr d) = d.
+  Proof.
+    unfold ctr128_crypt.
+    rewrite (ctr_crypt_length (aes_encrypt_block16 key) (fun x => aesE_len key Hk x) [] 0) by lia.
+    apply (ctr_crypt_invol (aes_encrypt_block16 key) (fun x => aesE_len key Hk x) [] 0). lia.
+  Qed.
+End AesInst.
